@@ -12,7 +12,7 @@ PROPS = {
         "rule": "operators x operands: exhaustive 30x30 int boundary grid x 17 binary int operators + 2 unary, 26x26 float grid x 11 operators, "
                 "all bool operand pairs, plus seeded random 64-bit / IEEE operands; each case evaluated in literal (folded at parse), "
                 "run-time (create_call on a pre-parsed function) and compound-assignment form and compared with an i128 / native-f64 oracle. "
-                "distinct_nontrivial = distinct (type, operator, operand values) triples; every triple is non-trivial (a full evaluation against the oracle). Added after seeded changes: half-constant forms (one operand a literal in the function text) for ints and floats; two-level compound expressions (a unary or binary operator over the result of another, with run-time operands and literal constants, incl. nested shifts over every pair of boundary amounts) on a 14x14 int / 12x12 float grid; a helper that applies an operator to operands of its documented types and is refused by the checker is a violation.",
+                "distinct_nontrivial = distinct (type, operator, operand values) triples; every triple is non-trivial (a full evaluation against the oracle). Added after seeded changes: half-constant forms (one operand a literal in the function text) for ints and floats; two-level compound expressions (a unary or binary operator over the result of another, with run-time operands and literal constants, incl. nested shifts over every pair of boundary amounts) on a 14x14 int / 12x12 float grid; a helper that applies an operator to operands of its documented types and is refused by the checker is a violation; the same name on both sides of every operator (`a op a`, through a local, through `*c`, in a nested function, as a named constant, `c op= *c`) on the grid diagonals and a twelfth of the random cases.",
         "assumptions": COMMON_ASSUME + ["float oracle = the same operation on the host's f64 (IEEE-754 binary64; powf from the platform libm)"],
         "floors": {"quick": {"evaluations": 25000, "shape:errors_by_op": 5}, "thorough": {"evaluations": 50000, "shape:errors_by_op": 5}},
         "exhaustive": False,
@@ -29,7 +29,7 @@ PROPS["C09"] = {
             "(start, stop, step) triple drawn from {absent} U [-n-2, n+2] U {MIN, MIN+1, -2^32, -2^31, 2^31, 2^32, MAX-1, MAX}, all 8 slice shapes plus the `[a:b:]` spelling, exhaustive per listed sequence, "
             "plus seeded random sequences/bounds; each case evaluated folded (literal sequence) and at run time (sequence and bounds as arguments of a pre-parsed function) "
             "and compared with a PySlice_AdjustIndices oracle written over i128; std.len compared with the scalar count; static type of the literal form must admit the value. "
-            "distinct_nontrivial = distinct (sequence, operation, bounds) cases. Added after seeded changes: half-constant forms (first element / whole sequence / index / one bound hidden from the folding pass); the sequence seen through a `[any]|string` parameter; repeat literals `[v; n]` written in place (v and n constant or not) indexed, sliced and measured; 35 static-typing templates (what the documented result kind obliges the checker to accept or refuse, incl. bare slices of non-sequences).",
+            "distinct_nontrivial = distinct (sequence, operation, bounds) cases. Added after seeded changes: half-constant forms (first element / whole sequence / index / one bound hidden from the folding pass); the sequence seen through a `[any]|string` parameter; repeat literals `[v; n]` written in place (v and n constant or not) indexed, sliced and measured; 35 static-typing templates (what the documented result kind obliges the checker to accept or refuse, incl. bare slices of non-sequences); two postfix steps in a row (slice then index / slice / len, in place, through a name, with the sequence or the index hidden or passed as argument); bounds and indices computed by slicing / measuring another sequence.",
     "assumptions": COMMON_ASSUME + ["oracle = Python slice semantics re-implemented in the harness over i128, independent of the slyce crate"],
     "floors": {"quick": {"evaluations": 50000, "shape:slice_shapes": 20}, "thorough": {"evaluations": 100000, "shape:slice_shapes": 20}},
     "technique": "runtime value monitor: differential against an independent Python-slice oracle, exhaustive bounded grid, folded and run-time forms",
@@ -45,12 +45,12 @@ PROPS["C20"] = {
             "strings over quotes, backslashes, every C0/C1 control, U+2028, combining marks, non-BMP, NUL before a digit); each value is printed with its Debug rendering and read back by "
             "Variable::from_str and by Code::parse(..).exec() (program route skipped for values containing MIN_INT); the result must be canonically equal, have the same type and be == to the original. "
             "Integer literal texts (0b/0o/0x/decimal, underscores, leading zeros, 63/64/65-bit magnitudes) are checked against u128 parsing: in range -> that value, otherwise IntegerOverflow. "
-            "distinct_nontrivial = distinct printed texts / literal texts. Added after seeded changes: the negative spelling of every integer literal through both readers; every literal also as an element of arrays / tuples (an over-long literal is refused wherever it stands); backslash followed by every printable ASCII character; arrays of up to 70 000 elements and strings of up to 1 000 000 characters.",
+            "distinct_nontrivial = distinct printed texts / literal texts. Added after seeded changes: the negative spelling of every integer literal through both readers; every literal also as an element of arrays / tuples (an over-long literal is refused wherever it stands); backslash followed by every printable ASCII character; arrays of up to 70 000 elements and strings of up to 1 000 000 characters; values wrapped in 1..40 further levels of arrays / tuples; print histories (the text of a value before and after values sharing it were printed); runs of 2..257 elements that are == but not identical or identical except at one position.",
     "assumptions": COMMON_ASSUME + ["expected value of a printed text = the value it was printed from (harness keeps the original); the replay reader understands Rust Debug escapes"],
     "floors": {"quick": {"evaluations": 75000, "shape:int_literal_forms": 12, "shape:value_features": 12}, "thorough": {"evaluations": 150000, "shape:int_literal_forms": 12, "shape:value_features": 12}},
     "technique": "runtime round-trip monitor: print -> parse (two routes) -> compare with the original value and type; integer literal forms vs u128 oracle",
     "level_text": "Hundreds of thousands of generated first-order values and integer literal spellings are pushed through the real printer and both real readers; any change of value, type or acceptance is reported. Exploration over a generated value space with all boundary scalars listed explicitly.",
-    "level_note": "trusts the harness's canonical value comparison; values deeper than 3 levels are not generated",
+    "level_note": "trusts the harness's canonical value comparison; generated leaves have depth <= 3, wrapped in up to 40 further levels",
     "exhaustive": False,
 }
 
@@ -59,7 +59,7 @@ PROPS["C10"] = {
     "rule": "type universe closed under array, tuple(2-3), function(0-2 params), mut, struct(fields of {a,b,c}), union(2-3) over {bool,int,float,string,(),any,!}: depth <= 1 enumerated completely (plus unions of same-arity function types next to the single function types over the union of their parameters / results; 503 types) "
             "(all ordered pairs; all triples whose two premises hold; every law instance), depth 2-3 sampled as chains A <= B <= C built by widening. Each law of the statement is a predicate over answers of the real "
             "Type::matches / | / conjoin / ==; semantic soundness: every generated value of A (and every value whose runtime type matches B) must belong to B by the harness's own membership test. "
-            "Only the stated direction of each law is demanded. distinct_nontrivial = distinct types, ordered pairs, chains and (value, type) soundness instances evaluated.",
+            "Only the stated direction of each law is demanded. distinct_nontrivial = distinct types, ordered pairs, chains and (value, type) soundness instances evaluated. Added after seeded changes: unions of 2..64 members built with | in shuffled order (exact members, upper bound of each, below exactly the common bounds, equivalent to the union read from its text).",
     "assumptions": COMMON_ASSUME + ["membership of a value in a type is judged by the harness (contents recursively; functions by declared signature under the harness's own subtype relation; cells by exact declared type and current content)"],
     "floors": {"quick": {"law:transitive:premise": 75000, "law:soundness:premise": 1250, "law:union-below-iff": 25000, "law:mut-invariant:premise": 25, "law:conjoin-lower-bound:non-never": 250},
                "thorough": {"law:transitive:premise": 150000, "law:soundness:premise": 2500, "law:union-below-iff": 50000, "law:mut-invariant:premise": 50, "law:conjoin-lower-bound:non-never": 500}},
@@ -89,7 +89,7 @@ PROPS["C03"] = {
             "in four statement contexts (names bound as constants = folding paths; as typed parameters = run-time paths; inside a loop; in infix position), longer sequences sampled; all type-token sequences of length <= 4 (5 thorough) and value-literal token sequences of length <= 4; "
             "(b) grammar-directed programs that ignore types; (c) token-level mutations and splices of the documentation's snippets, example_scripts and a construct checklist; (d) the checklist itself incl. imports of missing / directory / non-UTF-8 / ill-formed / ill-typed files; "
             "(e) failing constant subexpressions (1/0, 1%0, 1<<64, 2**-1, [][0], ...) in every constant position; (f) arbitrary Unicode text. Oracle: no panic (resource panics are inconclusive). "
-            "distinct_nontrivial = distinct inputs that got past the pest grammar and reached instruction construction (accepted or rejected by the checker). Added after seeded changes: (g) typed-generator programs; (h) every parameter x every postfix form (incl. every spelling of an int literal) x usage contexts; (i) the operator x operand-type family and constant operands of union static type; (j) names narrowed to a diverging branch x values x uses; (k) names used inside their own binder; files imported twice from scopes that differ in what the file reads.",
+            "distinct_nontrivial = distinct inputs that got past the pest grammar and reached instruction construction (accepted or rejected by the checker). Added after seeded changes: (g) typed-generator programs; (h) every parameter x every postfix form (incl. every spelling of an int literal) x usage contexts; (i) the operator x operand-type family and constant operands of union static type; (j) names narrowed to a diverging branch x values x uses; (k) names used inside their own binder; files imported twice from scopes that differ in what the file reads; (l) statements after a never-completing statement in 14 kinds of body x 7 diverging statements x 13 continuations, inline and in imported files; (m) first use of each lazily initialised construct as the first thing a fresh process parses with a bare interpreter (top level / function / module / imported file / nested import; child processes); typed type-filter texts.",
     "assumptions": COMMON_ASSUME + ["nesting depth <= 24 and literal sizes bounded (outside the claim beyond that); capacity-overflow / allocation panics are counted inconclusive"],
     "floors": {"quick": {"evaluations": 500000, "distinct": 25000, "checklist_accepted": 20, "shape:checker_errors": 25, "shape:import_cases": 10},
                "thorough": {"evaluations": 1000000, "distinct": 50000, "checklist_accepted": 20, "shape:checker_errors": 25, "shape:import_cases": 10}},
@@ -106,7 +106,7 @@ PROPS["C01"] = {
             "their accepted token-level mutants, and host-API calls (create_call, 3 generated argument vectors each) of every function value a program yields. A monitor hooked into Instruction::exec and Function::exec judges every instruction result, "
             "every bound argument and every returned value against the static type the checker computed for it, by runtime tag (as_type().matches) and by contents recursively (harness membership test; cells by exact declared type and current content), "
             "plus the program's reported type vs its result and all cells reachable from the result. Frames of the interpreter's generic helper closures are skipped (placeholder types); their element-carrying steps are judged against the retyped result. "
-            "The first violation of an execution is reported (later ones may be the same value flowing on). distinct_nontrivial = distinct program texts executed under the monitor. Added after seeded changes: the operator x operand-type family (optyping.rs: every binary operator, compound assignment, prefix / postfix and statement form, `$init` shape, iterator-operator parameter typing and `? T` filter type over a universe with unions; whatever is accepted is called with every combination of member values), constant operands of union static type, names narrowed to a diverging branch.",
+            "The first violation of an execution is reported (later ones may be the same value flowing on). distinct_nontrivial = distinct program texts executed under the monitor. Added after seeded changes: the operator x operand-type family (optyping.rs: every binary operator, compound assignment, prefix / postfix and statement form, `$init` shape, iterator-operator parameter typing and `? T` filter type over a universe with unions; whatever is accepted is called with every combination of member values), constant operands of union static type, names narrowed to a diverging branch; `it ? T` over sources of a declared element type E for 21 x 38 pairings of E and T in six usage shapes; statements after a never-completing statement in every kind of body.",
     "assumptions": COMMON_ASSUME + ["membership of a value in a type is judged by the harness oracle (oracle.rs), not by Type::matches alone"],
     "floors": {"quick": {"exec_events_nontrivial": 75000, "shape:instruction_kinds_executed": 55, "shape:kind_type_value_triples": 800, "call_args_judged": 5000, "returns_judged": 5000, "helper_steps_judged": 500},
                "thorough": {"exec_events_nontrivial": 150000, "shape:instruction_kinds_executed": 55, "shape:kind_type_value_triples": 800, "call_args_judged": 10000, "returns_judged": 10000, "helper_steps_judged": 1000}},
@@ -135,7 +135,7 @@ PROPS["C02"] = {
 _DIFF_COMMON = ("programs from the typed generator (genp.rs; <= 10 top-level statements, expression depth <= 3-4, unique effect ids appended to a log cell by tick helpers), each rendered with literal constants and with every constant hidden behind an identity call, "
                 "both executed through Code::parse + exec_unscoped; ")
 _DIFF_REF = ("each accepted run is compared with an independent reference evaluator (refeval.rs: lexical scoping with snapshot capture, left-to-right exactly-once evaluation, short-circuit logic, documented arithmetic / slices / iterator list semantics, cells with identity); "
-             "the payload of an exhausted iterator step and anything the reference cannot decide is not judged; a violation is shrunk on the AST while the same class persists. distinct_nontrivial = distinct program texts. Added after seeded changes: the generator's typing is exact, so a hidden-constant twin that the checker refuses although the reference evaluator ran the program to completion is a violation (valid-program-rejected); effectful function operands, widened unions, inferred cells over exactly-typed initialisers, structured run-time type tests (arrays / tuples of unions, cells, a struct behind a union), default arms anywhere, value arms on union scrutinees, never-matching while-set / if-set, struct literals in any field order with repeated names, float / string reductions.")
+             "the payload of an exhausted iterator step and anything the reference cannot decide is not judged; a violation is shrunk on the AST while the same class persists. distinct_nontrivial = distinct program texts. Added after seeded changes: the generator's typing is exact, so a hidden-constant twin that the checker refuses although the reference evaluator ran the program to completion is a violation (valid-program-rejected); effectful function operands, widened unions, inferred cells over exactly-typed initialisers, structured run-time type tests (arrays / tuples of unions, cells, a struct behind a union), default arms anywhere, value arms on union scrutinees, never-matching while-set / if-set, struct literals in any field order with repeated names, float / string reductions; exits in else branches / match arms / nested blocks, loops whose body ends in `break`, cells in `[c; n]` / nested / tuple-repeat containers, writes and reads through container paths. C11 additionally: every iterator operator over explicit element lists (wrapping ints, floats whose sums round or overflow, strings, bools) in three source forms against the left fold computed in the harness, and `it ? T` over typed sources judged by harness membership. C07 / C12 additionally: the order family (an operand reading a cell next to one writing it in every operand position; all layouts of <= 2 arms x <= 2 constant / effectful match candidates over seven scrutinee forms).")
 
 def _diff(prop, focus, judged, technique, floors_extra=None):
     floors = {"programs": 5000, "shape:constructs": 70}
@@ -178,7 +178,7 @@ PROPS["C19"] = {
             "(literal, concatenation at each split incl. with [], slice of a longer array, [:] , ~ $], @ id $], ? p $], ? any $], both sides of \\, [v; n], a cell read, functions typed [any] / any) x all path pairs, "
             "for equal contents and for contents of equal length or empty (the interesting unequal ones), with constant and with hidden (run-time) operands, plain and wrapped in tuples / structs / arrays: "
             "a == b, b == a, a != b, b != a, value-arm match and a == a are compared with the reference equality (element-wise, floats IEEE, different kinds unequal). Plus a checklist of scalar / cross-kind / function / cell identity cases "
-            "and host-built arrays with every stored element type compared through Variable == and in-language. distinct_nontrivial = distinct comparison programs. Added after seeded changes: static views (the same value through differently typed parameters, also with one operand a literal); identity of functions and cells seen from inside a function body; containers holding NaN compared with their aliases; nesting 127-400 levels deep; negated spellings of == / !=; floats one or two ulps apart.",
+            "and host-built arrays with every stored element type compared through Variable == and in-language. distinct_nontrivial = distinct comparison programs. Added after seeded changes: static views (the same value through differently typed parameters, also with one operand a literal); identity of functions and cells seen from inside a function body; containers holding NaN compared with their aliases; nesting 127-400 levels deep; negated spellings of == / !=; floats one or two ulps apart; all ordered pairs of a 20-element scalar pool (signed zeros, NaN, infinities, look-alikes of other kinds) through == / != / value arms in four constness forms, and `match` with 20 all-constant leading arms in 20 orders; struct contents (field orders permuted, nested, in tuples) in the provenance grid.",
     "assumptions": COMMON_ASSUME + ["reference equality = the documented one, implemented in the harness over its own content representation"],
     "floors": {"quick": {"evaluations": 25000, "shape:path_pairs": 256, "expected-equal": 2500, "expected-unequal": 5000, "host-built-pairs": 2500, "scalar-cases-held": 150},
                "thorough": {"evaluations": 50000, "shape:path_pairs": 256, "expected-equal": 5000, "expected-unequal": 10000, "host-built-pairs": 5000, "scalar-cases-held": 150}},
@@ -194,7 +194,7 @@ PROPS["C14"] = {
             "all 6859 chains of three operators (6 operand typings, 1 random operand draw in quick, 8 in thorough), each written with and without spaces, with constant and with hidden (run-time) operands: the unparenthesised text must evaluate (value, "
             "error kind or rejection) like the full parenthesisation the documented 14-level table prescribes, evaluated by the harness's own precedence-climbing evaluator and through the real parser on the parenthesised text; "
             "a case counts as discriminating only if another grouping (all-left or all-right) gives a different outcome or is ill-typed. Plus 80 fixed templates for postfix vs prefix, prefix vs iterator level vs **, "
-            "iterator-level associativity, `? type`, right-associative assignments (all 12), and maximal-munch spellings. distinct_nontrivial = distinct expression texts. Added after seeded changes: relational templates (the unparenthesised text must behave exactly like its documented grouping, rejection included): every assignment operator x every binary operator topping its right-hand side (plain and chained); prefix and iterator-level operators against both postfix levels; a level-1 postfix form directly after a level-3 postfix operator.",
+            "iterator-level associativity, `? type`, right-associative assignments (all 12), and maximal-munch spellings. distinct_nontrivial = distinct expression texts. Added after seeded changes: relational templates (the unparenthesised text must behave exactly like its documented grouping, rejection included): every assignment operator x every binary operator topping its right-hand side (plain and chained); prefix and iterator-level operators against both postfix levels; a level-1 postfix form directly after a level-3 postfix operator; float chains over + - * / ** on triples where rounding / overflow makes the grouping visible, every operand independently literal or hidden; partly constant int / string / array chains; the alternative grouping and the bare chain compared inside one flat expression.",
     "assumptions": COMMON_ASSUME + ["the table is the one in docs/operators.md, encoded in c14.rs"],
     "floors": {"quick": {"discriminating-cases": 6250, "shape:operator_chains_discriminated": 3000, "templates": 75},
                "thorough": {"discriminating-cases": 12500, "shape:operator_chains_discriminated": 3000, "templates": 75}},
@@ -210,7 +210,7 @@ PROPS["C05"] = {
             "HashSet / HashMap instance inside gets fresh hash keys - and again in 3 / 8 freshly started processes; accepted-or-not, the canonicalised static type (sorted union members / struct fields), the canonicalised value or the error variant must be identical. "
             "(types) pairs of types (depth-1 universe and unions of >= 3 generated members of depth <= 3) are built 8 times each through constructors and through parsing in permuted member order, and 23 public Type API answers "
             "(==, matches both ways, |, conjoin, index_result, params, return_type, element_type, mut_element_type, tuple_len, min_tuple_len, iter_element, tuple_element_at, field_type, has_field, flatten_tuple, is_*) must be identical across builds; "
-            "separately built copies must be == and mutually matching. distinct_nontrivial = distinct program texts and type pairs. Added after seeded changes: unions of API-shaped members (iterator / callable / indexable / cell / tuple / struct shapes with `any` and concrete types; all-tuple unions of different lengths) in the type-API repetition family; an imported file rewritten 40 times (same path, same length) between parses in one process.",
+            "separately built copies must be == and mutually matching. distinct_nontrivial = distinct program texts and type pairs. Added after seeded changes: unions of API-shaped members (iterator / callable / indexable / cell / tuple / struct shapes with `any` and concrete types; all-tuple unions of different lengths) in the type-API repetition family; an imported file rewritten 40 times (same path, same length) between parses in one process; 18 probe programs judged before and after each of 34 unrelated programs that fail in every phase (failing imports, syntax / type errors, failing constants, every run-time error, errors inside iterator helpers), all on one thread.",
     "assumptions": COMMON_ASSUME + ["hash orders explored are whatever the runtime's random keys produce in the repetitions, not all permutations; evidence counts how many programs / types were actually seen in more than one print order"],
     "floors": {"quick": {"programs": 1250, "cross-process-comparisons": 2500, "copies-compared": 12500, "programs-with-several-print-orders-of-their-type": 50},
                "thorough": {"programs": 2500, "cross-process-comparisons": 5000, "copies-compared": 25000, "programs-with-several-print-orders-of-their-type": 100}},
@@ -244,7 +244,7 @@ PROPS["C18"] = {
             "called through create_call and - when the arguments are printable - as SimpleSL text (results must agree). Oracle: no panic, no runtime error, the result belongs to the declared result type (contents and tag), constants belong to their declared types; "
             "independent expectations for len, bit counts, byte/bit reversal, integer logs, float classification, to_bits/from_bits, to_float/to_int, parse_int, split / replace / contains / starts_with / ends_with / chars / bytes / str_from_utf8 / str_from_utf8_lossy / trim* / to_lowercase / to_uppercase (the host language's Unicode-aware equivalents), parse_float, to_string. Float rounding and transcendental functions are compared with the host's f64 methods as a note in the evidence only (counter advisory-float-math-doc-mismatch), because the property requires only their signature. "
             "57 file-system scenarios in a scratch directory (missing path, directory-instead-of-file, file-instead-of-directory component, non-empty directory, existing target, name too long, embedded NUL, /proc) with required success / struct{error_code, msg}, the observable effect of a success, and the whole scratch tree unchanged by a call that reports failure; "
-            "7 stdin states for cgetline in child processes (empty, one line, no newline, CRLF, Unicode, invalid UTF-8, NUL). distinct_nontrivial = distinct calls (function + argument values).",
+            "7 stdin states for cgetline in child processes (empty, one line, no newline, CRLF, Unicode, invalid UTF-8, NUL). distinct_nontrivial = distinct calls (function + argument values). Added after seeded changes: procfs / sysfs files read and copied (their reported size is not what a read delivers).",
     "assumptions": COMMON_ASSUME + ["runs as root: permission bits cannot make a path unwritable, so 'unwritable' is exercised through /proc and file-instead-of-directory components only",
                                     "float rounding / transcendental functions are judged only for signature and absence of panics; value differences from the host's f64 methods are notes, not verdicts"],
     "floors": {"quick": {"calls": 3750, "calls-with-independent-expectation": 1500, "shape:functions_called": 85, "fs-fault-states": 57, "cgetline-stdin-states": 7, "constants-judged": 4, "text-route-calls": 750},
